@@ -117,20 +117,25 @@ theorem returned_after_cascade {s : State} (h : Reachable s) (hw : s.waitReturne
   · exact hok.2.1
   · exact hok.1
 
-/-- an occupied worker can always take its next step -/
-theorem busy_enabled {s : State} {j w : Nat} {m : Mon} (hm : s.mons[j]? = some m)
-    (hw : m.phase.worker = some w) : ∃ e, e.internal = true ∧ (step s e).isSome := by
+/-- an occupied worker can always take its next step (which is not a `pop`) -/
+theorem busy_step {s : State} {j w : Nat} {m : Mon} (hm : s.mons[j]? = some m)
+    (hw : m.phase.worker = some w) : ∃ e, e.internal = true ∧ e.isPop = false ∧ (step s e).isSome := by
   cases hph : m.phase with
   | fresh => simp [hph, Phase.worker] at hw
   | queued => simp [hph, Phase.worker] at hw
   | done => simp [hph, Phase.worker] at hw
   | running w' =>
     cases htodo : m.todo with
-    | nil => refine ⟨.taskDone j, rfl, ?_⟩; simp only [step, hm, hph, htodo]; split <;> simp
-    | cons r rest => exact ⟨.ruleReturns j true, rfl, by simp [step, hm, hph, htodo]⟩
-  | failing w' => exact ⟨.setErrors j, rfl, by simp [step, hm, hph]⟩
-  | errSet w' => exact ⟨.errFinish j, rfl, by simp [step, hm, hph]⟩
-  | notifying w' => exact ⟨.notified j, rfl, by simp [step, hm, hph]⟩
+    | nil => refine ⟨.taskDone j, rfl, rfl, ?_⟩; simp only [step, hm, hph, htodo]; split <;> simp
+    | cons r rest => exact ⟨.ruleReturns j true, rfl, rfl, by simp [step, hm, hph, htodo]⟩
+  | failing w' => exact ⟨.setErrors j, rfl, rfl, by simp [step, hm, hph]⟩
+  | errSet w' => exact ⟨.errFinish j, rfl, rfl, by simp [step, hm, hph]⟩
+  | notifying w' => exact ⟨.notified j, rfl, rfl, by simp [step, hm, hph]⟩
+
+theorem busy_enabled {s : State} {j w : Nat} {m : Mon} (hm : s.mons[j]? = some m)
+    (hw : m.phase.worker = some w) : ∃ e, e.internal = true ∧ (step s e).isSome := by
+  obtain ⟨e, h1, _, h3⟩ := busy_step hm hw
+  exact ⟨e, h1, h3⟩
 
 /-- **progress**: a monitor that was handed to the processor is unfinished and some worker is
     not occupied by this cascade ⇒ an engine step is enabled (no stuck cascade). -/
@@ -472,5 +477,130 @@ theorem measure_decreases {s s' : State} {e : Event} (h : Reachable s) (he : e.i
           · omega
         simp [workLeft, State.clearObs, hp1]
         omega
+
+/-! ### several cascades in flight -/
+
+theorem reachable_step {s s' : State} {e : Event} (h : Reachable s) (hs : step s e = some s') :
+    Reachable s' := by
+  obtain ⟨w, ff, es, hr⟩ := h
+  refine ⟨w, ff, es ++ [e], ?_⟩
+  simp [run, List.foldlM_append] at hr ⊢
+  simp [hr, hs]
+
+theorem sys_inv_step {S S' : Sys} {e : SysEvent} (h : ∀ s ∈ S.roots, Reachable s)
+    (hs : Sys.step S e = some S') : ∀ s ∈ S'.roots, Reachable s := by
+  cases e with
+  | newRoot =>
+    simp only [Sys.step] at hs
+    cases hs
+    intro s hs
+    rcases List.mem_append.mp hs with hs | hs
+    · exact h s hs
+    · simp at hs; subst hs; exact ⟨_, _, [], rfl⟩
+  | «at» r e =>
+    simp only [Sys.step] at hs
+    split at hs
+    · rename_i s0 hs0
+      split at hs
+      · obtain ⟨s1, hstep, hS⟩ := Option.map_eq_some_iff.mp hs
+        subst hS
+        intro s hs
+        rcases List.mem_or_eq_of_mem_set hs with hs | hs
+        · exact h s hs
+        · exact hs ▸ reachable_step (h s0 (List.mem_of_getElem? hs0)) hstep
+      · cases hs
+    · cases hs
+
+/-- every cascade of a reachable system state is a reachable state of the single-cascade transition
+    system: all theorems above hold for each of several cascades in flight on one processor -/
+theorem sys_component_reachable {S : Sys} (h : S.Reachable) : ∀ s ∈ S.roots, Reachable s := by
+  obtain ⟨w, ff, es, hr⟩ := h
+  suffices ∀ (es : List SysEvent) (S0 : Sys), (∀ s ∈ S0.roots, Reachable s) → Sys.run S0 es = some S →
+      ∀ s ∈ S.roots, Reachable s from this es _ (by simp [Sys.init]) hr
+  intro es
+  induction es with
+  | nil => intro S0 h0 hr; simp [Sys.run] at hr; exact hr ▸ h0
+  | cons e es ih =>
+    intro S0 h0 hr
+    simp only [Sys.run, List.foldlM_cons] at hr
+    cases hstep : Sys.step S0 e with
+    | none => simp [hstep] at hr
+    | some S1 => simp [hstep] at hr; exact ih S1 (sys_inv_step h0 hstep) hr
+
+/-- **nothing from another cascade**: an event of cascade `r` leaves every other cascade — its
+    monitors, counter, error map, hence its error report — untouched -/
+theorem sys_frame {S S' : Sys} {r : Nat} {e : Event} (hs : Sys.step S (.at r e) = some S')
+    (r' : Nat) (hne : r' ≠ r) : S'.roots[r']? = S.roots[r']? := by
+  simp only [Sys.step] at hs
+  split at hs
+  · split at hs
+    · obtain ⟨s1, _, hS⟩ := Option.map_eq_some_iff.mp hs
+      subst hS
+      show (S.roots.set r _)[r']? = _
+      rw [List.getElem?_set]
+      simp [Ne.symm hne]
+    · cases hs
+  · cases hs
+
+/-- `errors_exact` and `wait_after_cascade` for a cascade that runs beside others -/
+theorem sys_errors_exact {S : Sys} (h : S.Reachable) {r : Nat} {s : State} (hr : S.roots[r]? = some s)
+    (hw : 0 < s.released) :
+    allErrors s = expectedReport s ∧ ∀ m ∈ s.mons, m.phase.finished = true ∧ m.todo = [] := by
+  have hreach := sys_component_reachable h s (List.mem_of_getElem? hr)
+  refine ⟨errors_exact hreach hw, ?_⟩
+  have hwr : (step s .waitReturns).isSome ∨ s.waitReturned = true := by
+    cases hret : s.waitReturned
+    · left; simp [step, hw, hret]
+    · right; rfl
+  rcases hwr with hwr | hwr
+  · intro m hm
+    have := wait_after_cascade hreach hwr m hm
+    exact ⟨this.1, this.2.1⟩
+  · exact returned_after_cascade hreach hwr
+
+example : ∃ S : Sys, S.Reachable ∧ S.roots.length = 2 ∧ ∃ s, S.roots[1]? = some s ∧ 0 < s.released :=
+  ⟨_, ⟨2, false, [.newRoot, .newRoot, .at 0 (.addEvent 0 true [1]), .at 0 (.pop 0 0), .at 1 .register,
+    .at 1 (.addEvent 0 true [5]), .at 1 (.pop 1 0), .at 1 (.ruleReturns 0 false), .at 1 (.taskDone 0),
+    .at 1 (.setErrors 0), .at 1 (.errFinish 0), .at 1 .post, .at 1 (.observerRuns .wait)], rfl⟩,
+    by decide, _, rfl, by decide⟩
+
+/-- a worker occupied in one cascade cannot take a task of another -/
+example : Sys.run (Sys.init 1 false) [.newRoot, .newRoot, .at 0 (.addEvent 0 true [1]),
+    .at 1 (.addEvent 0 true [2]), .at 0 (.pop 0 0), .at 1 (.pop 0 0)] = none := by decide
+
+/-- progress in the system: a handed, unfinished monitor of some cascade and a worker that is free
+    in every cascade ⇒ an engine step of that cascade is enabled -/
+theorem sys_progress {S : Sys} {r i w : Nat} {s : State} {m : Mon} (hr : S.roots[r]? = some s)
+    (hm : s.mons[i]? = some m) (hu : m.phase.finished = false) (hh : m.phase ≠ .fresh)
+    (hw : w < s.workers) (hfree : S.workerFree w = true) :
+    ∃ e, e.internal = true ∧ (Sys.step S (.at r e)).isSome := by
+  have hfree' : s.workerFree w = true := by
+    simp only [Sys.workerFree, List.all_eq_true] at hfree
+    exact hfree s (List.mem_of_getElem? hr)
+  have nonpop : ∀ e, e.isPop = false → (step s e).isSome → (Sys.step S (.at r e)).isSome := by
+    intro e hp hs
+    cases hse : step s e with
+    | none => simp [hse] at hs
+    | some s' =>
+      have : S.allows e = true := by cases e <;> simp_all [Sys.allows, Event.isPop]
+      simp [Sys.step, hr, this, hse]
+  cases hph : m.phase with
+  | fresh => exact absurd hph hh
+  | done => simp [hph, Phase.finished] at hu
+  | queued =>
+    refine ⟨.pop w i, rfl, ?_⟩
+    simp [Sys.step, hr, Sys.allows, hfree, step, hm, hph, hw, hfree']
+  | running w' =>
+    obtain ⟨e, hi, hnp, hs⟩ := busy_step hm (w := w') (by simp [hph, Phase.worker])
+    exact ⟨e, hi, nonpop e hnp hs⟩
+  | failing w' =>
+    obtain ⟨e, hi, hnp, hs⟩ := busy_step hm (w := w') (by simp [hph, Phase.worker])
+    exact ⟨e, hi, nonpop e hnp hs⟩
+  | errSet w' =>
+    obtain ⟨e, hi, hnp, hs⟩ := busy_step hm (w := w') (by simp [hph, Phase.worker])
+    exact ⟨e, hi, nonpop e hnp hs⟩
+  | notifying w' =>
+    obtain ⟨e, hi, hnp, hs⟩ := busy_step hm (w := w') (by simp [hph, Phase.worker])
+    exact ⟨e, hi, nonpop e hnp hs⟩
 
 end Ecal.Props.C02
